@@ -178,11 +178,11 @@ def string_replace_map(line, lower=False):
     rev_string_map = {}
     for item in splitquote(line, lower=lower)[0]:
         if isinstance(item, String) and not _is_simple_str(item[1:-1]):
-            key = rev_string_map.get(item)
+            trimmed = item[1:-1]
+            key = rev_string_map.get(trimmed)
             if key is None:
                 str_idx += 1
                 key = "_F2PY_STRING_CONSTANT_{0}_".format(str_idx)
-                trimmed = item[1:-1]
                 string_map[key] = trimmed
                 rev_string_map[trimmed] = key
             items.append(item[0] + key + item[-1])
@@ -209,11 +209,11 @@ def string_replace_map(line, lower=False):
     expr_keys = []
     for item in splitparen(newline):
         if isinstance(item, ParenString) and not _is_name(item[1:-1].strip()):
-            key = rev_string_map.get(item)
+            trimmed = item[1:-1].strip()
+            key = rev_string_map.get(trimmed)
             if key is None:
                 parens_idx += 1
                 key = "F2PY_EXPR_TUPLE_{0}".format(parens_idx)
-                trimmed = item[1:-1].strip()
                 string_map[key] = trimmed
                 rev_string_map[trimmed] = key
                 expr_keys.append(key)
